@@ -3,6 +3,11 @@
 # kind: rapid (default) | exhaustive | plain
 # quick/thorough: checks = total rapid cases over all shards; shards = processes; timeout = seconds per shard
 PARTS = {
+    "C16": [
+        {"test": "TestVfC16Blacklist",
+         "quick": {"checks": 1200, "shards": 12, "timeout": 900},
+         "thorough": {"checks": 40000, "shards": 16, "timeout": 3000}},
+    ],
     "C05": [
         {"test": "TestVfC05Converge",
          "quick": {"checks": 1200, "shards": 12, "timeout": 900},
@@ -166,6 +171,19 @@ RULES = {
            "live (up to its buffer of 1, 2, 4 or 32), then ErrSubscriptionCancelled if cancelled, then blocks if live. Non-trivial: "
            "interest returns to zero and rises again or a stream was reset (NET); an announcement hit a full queue or a subscription "
            "was cancelled with buffered messages (DD). Distinct = case JSON.",
+    "C16": "(NET) node N of each router on a full libp2p host (NewStream optionally taking 20-400 virtual ms) with three skeleton peers "
+           "over simnet (latencies 1-50 ms): the target X (floodsub / gossipsub v1.1 / v1.2), an honest forwarder Y and a leaf Z; "
+           "blacklist implementation map or time-cached, route BlacklistPeer or Add inside the event loop; position of the moment: "
+           "before X connects, delta ms after the connect starts (delta swept over the whole connection + identify + stream set-up), "
+           "settled (in the mesh when gossipsub), while a message of X sits in a slow validator, after X disconnected, or inside the "
+           "dead-peer back-off after X reset the node's stream 1-3 times; 0-6 operations before and 0-10 after the moment (X "
+           "publishes, Y forwards messages signed by X, Y and N publish, X re-announces / GRAFTs / reconnects / reopens its stream / "
+           "resets the node's stream, further blacklisting calls of either route, waits) plus one message of every kind at the end. "
+           "Oracle: no message sent by X or authored by X after the moment is delivered at N or forwarded to Z; no RPC reaches X on a "
+           "stream it accepted later than one latency after the moment; after BlacklistPeer (first or repeated): no outbound queue, "
+           "the old queue closed, X in no mesh / fanout / ListPeers, and no RPC reaches X later than one latency after it; at the end "
+           "no outbound queue for X. Y's own messages must still arrive (control). Non-trivial: position other than settled and "
+           "control messages delivered. Distinct = case JSON.",
     "C14": "direct-driven node of each router (gossipsub with scoring and gater; with or without a discovery service; 2 real connector "
            "goroutines, automatic heartbeats, a slow validator with 0-4 remote messages in validation) under 1-4 concurrent caller "
            "goroutines issuing 1-10 calls each of 23 APIs (join, subscribe, Next, cancel, publish, publish-with-readiness, batch, relay, "
@@ -308,6 +326,9 @@ ASSUMPTIONS = {
     "C05": ["connected(i,j) is what both libp2p hosts report; a case whose connection state differs from the script at a quiet point is inconclusive",
             "stream resets are limited to 3 per directed pair: the dead-peer back-off gives up after MaxBackoffAttempts = 4 respawns in 10 minutes by design",
             "the model of interest is: a live relay reference, or a live subscription on a topic that was not joined fanout-only"],
+    "C16": ["messages already inside the validation pipeline at the moment are don't-care (the statement speaks of messages received from that moment on)",
+            "in-flight allowance: one one-way latency + 25 ms, for RPCs written and streams opened (lazily negotiated) just before the moment",
+            "the time-cached blacklist is given a one-hour expiry, longer than any case"],
     "C14": ["direct-drive replaces comm.go's per-stream goroutines by the harness, so their termination is not covered here",
             "inside a synctest bubble a goroutine waiting for a sync.Mutex freezes the virtual clock, so callers of Topic.Close / SetScoreParams are serialised against the other calls on the same handle by the harness (on channels) and the real mutex is probed with TryLock instead; a frozen bubble is reported as inconclusive (exit 2), never as a violation",
             "calls that wait by contract on the caller's context (Next, NextPeerEvent, Publish with readiness) get a 150 ms caller deadline",
@@ -363,6 +384,15 @@ META = {
                 "state lost or kept across stream resets and reconnects, subscriptions that lose buffered messages on Cancel.",
         "note": "Two genuine defects found and repaired (stream reset forgot subscriptions; unsubscribe retry vs fanout-only).",
         "technique": "stateful / model-based property-based testing (rapid) on a simulated libp2p network with fault injection, plus direct-drive histories",
+    },
+    "C16": {
+        "text": "Property-based testing over life-cycle positions x blacklisting routes x implementations on a simulated network with "
+                "skeleton peers that play the blacklisted peer, an honest forwarder and a downstream observer; the moment is swept "
+                "through connection set-up with generated latencies and stream-negotiation delays. Finds missing checks on one of "
+                "the paths (forwarder vs author, pending vs established vs respawned streams), clean-up skipped for peers already "
+                "listed, traffic that keeps flowing to the peer.",
+        "note": "Everything is observed from outside the node (subscription, wire at X and Z) except the 'at that moment' state (queue, mesh, fanout), read in the event loop.",
+        "technique": "property-based testing (rapid) on a simulated libp2p network with skeleton peers and generated fault timing",
     },
     "C14": {
         "text": "Property-based testing over concurrent API workloads x cancellation points (by call count, by virtual instant, by a racing "
